@@ -190,5 +190,138 @@ mod proofs {
         assert!(is_err);
     }
 
+    // ------------------------------------------------------------------ C14 with a context
+    use crate::verif_v::lits;
+    use crate::text::verif_v::mk_ciphertext;
+    fn same_ct(a: &Ciphertext, b: &Ciphertext, len: usize) -> bool {
+        let mut ok = a.size() == b.size() && a.coeff_modulus_size() == b.coeff_modulus_size() && a.poly_modulus_degree() == b.poly_modulus_degree()
+            && a.is_ntt_form() == b.is_ntt_form() && a.correction_factor() == b.correction_factor() && a.scale().to_bits() == b.scale().to_bits()
+            && a.data().len() == len && b.data().len() == len;
+        let pa = a.parms_id(); let pb = b.parms_id();
+        ok = ok && pa[0] == pb[0] && pa[1] == pb[1] && pa[2] == pb[2] && pa[3] == pb[3];
+        if ok { let i: usize = kani::any(); kani::assume(i < len); ok = a.data()[i] == b.data()[i]; }
+        ok
+    }
+
+    // @harness id=C14 tier=quick unwind=16 timeout=3000 fs=4096
+    // @desc a BFV ciphertext round-trips exactly through the compact format (residues packed in 1, 2 and 3 bytes according to their prime) and through the full format; announced size == bytes written == bytes consumed; a second object written after it in the same stream is recovered independently
+    // @bounds BFV N=2, q={97, 12289, 65537} (byte widths 1/2/3), size 2; all canonical residues; NTT flag symbolic
+    // @funcs <Ciphertext as SerializableWithHeContext>::{serialize,deserialize,serialized_size}, Ciphertext::{serialize_full,deserialize_full,serialized_full_size}, write_u64_limited, read_u64_limited, get_u64_limit
+    // @stubs HeContext::get_context_data -> linear search over the literal chain; alloc::sync::Arc::drop_slow -> no-op
+    #[kani::proof]
+    #[kani::stub(crate::context::HeContext::get_context_data, crate::context::verif_v::get_context_data_stub)]
+    #[kani::stub(alloc::sync::Arc::drop_slow, crate::verif_v::arc_drop_slow_noop)]
+    fn c14_ciphertext_roundtrip_bfv_bytewidths() {
+        let ctx = lits::ctx_bfv_n2_bytes();
+        let pid = *ctx.first_parms_id();
+        let qs = [97u32, 12289, 65537];
+        let r: [u32; 12] = kani::any();
+        let mut d = [0u64; 12]; let mut i = 0;
+        while i < 12 { kani::assume(r[i] < qs[(i / 2) % 3]); d[i] = r[i] as u64; i += 1; }
+        let ntt: bool = kani::any();
+        let ct = mk_ciphertext(2, 3, 2, d.to_vec(), pid, 1.0, ntt, 1);
+        let full: bool = kani::any();
+        let mut s = Sink::new();
+        let n = if full { ct.serialize_full(&ctx, &mut s).unwrap() } else { ct.serialize(&ctx, &mut s).unwrap() };
+        let announced = if full { ct.serialized_full_size(&ctx) } else { ct.serialized_size(&ctx) };
+        let tail: u64 = kani::any(); tail.serialize(&mut s).unwrap();
+        kani::cover!(!full && d[5] > 70000 - 5000);
+        assert!(n == announced && s.len == n + 8);
+        if !full { assert!(n == 32 + 8 + 1 + 1 + 2 * (2 * 1 + 2 * 2 + 2 * 3)); }
+        let mut rd = Src { buf: s.buf, pos: 0, end: s.len };
+        let back = if full { Ciphertext::deserialize_full(&ctx, &mut rd).unwrap() } else { <Ciphertext as SerializableWithHeContext>::deserialize(&ctx, &mut rd).unwrap() };
+        assert!(rd.pos == n);
+        assert!(same_ct(&ct, &back, 12));
+        assert!(u64::deserialize(&mut rd).unwrap() == tail);
+        std::mem::forget(ctx);
+    }
+
+    // @harness id=C14 tier=quick unwind=16 timeout=3000 fs=4096
+    // @desc CKKS and BGV ciphertexts round-trip through the compact format including their scheme-specific field (scale bit pattern resp. correction factor); size 3 ciphertexts keep all polynomials
+    // @bounds N=2, q={97,113}; CKKS (any finite scale bit pattern) or BGV (any correction factor) chosen symbolically; size 3; all canonical residues
+    // @funcs <Ciphertext as SerializableWithHeContext>::{serialize,deserialize,serialized_size}
+    // @stubs HeContext::get_context_data -> linear search over the literal chain; alloc::sync::Arc::drop_slow -> no-op
+    #[kani::proof]
+    #[kani::stub(crate::context::HeContext::get_context_data, crate::context::verif_v::get_context_data_stub)]
+    #[kani::stub(alloc::sync::Arc::drop_slow, crate::verif_v::arc_drop_slow_noop)]
+    fn c14_ciphertext_roundtrip_ckks_bgv() {
+        let ckks: bool = kani::any();
+        if ckks { let ctx = lits::ctx_ckks_n2_2p1(); scheme_case(&ctx, true); std::mem::forget(ctx); }
+        else { let ctx = lits::ctx_bgv_n2_2p1(); scheme_case(&ctx, false); std::mem::forget(ctx); }
+    }
+    fn scheme_case(ctx: &std::sync::Arc<HeContext>, ckks: bool) {
+        let pid = *ctx.first_parms_id();
+        let r: [u8; 12] = kani::any();
+        let mut d = [0u64; 12]; let mut i = 0;
+        while i < 12 { kani::assume((r[i] as u64) < if (i / 2) % 2 == 0 { 97 } else { 113 }); d[i] = r[i] as u64; i += 1; }
+        let sb: u64 = kani::any(); let cf: u64 = kani::any();
+        let ct = if ckks { mk_ciphertext(3, 2, 2, d.to_vec(), pid, f64::from_bits(sb), true, 1) } else { mk_ciphertext(3, 2, 2, d.to_vec(), pid, 1.0, true, cf) };
+        let mut s = Sink::new();
+        let n = ct.serialize(ctx, &mut s).unwrap();
+        kani::cover!(true);
+        assert!(n == ct.serialized_size(ctx) && s.len == n && n == 32 + 8 + 1 + 8 + 1 + 12);
+        let mut rd = Src { buf: s.buf, pos: 0, end: s.len };
+        let back = <Ciphertext as SerializableWithHeContext>::deserialize(ctx, &mut rd).unwrap();
+        assert!(rd.pos == n);
+        assert!(same_ct(&ct, &back, 12));
+    }
+
+    // @harness id=C14 tier=quick unwind=16 timeout=3000 fs=4096
+    // @desc the selected-terms format restores exactly the selected coefficients of the first polynomial (others zero) and ALL coefficients of the remaining polynomials; announced size == bytes written == bytes consumed
+    // @bounds BFV N=2, q={97,113} coefficient form, size 2; term subsets {0}, {1}, {0,1} (symbolic choice, concrete per case); all canonical residues
+    // @funcs Ciphertext::{serialize_terms,deserialize_terms,serialized_terms_size}
+    // @stubs HeContext::get_context_data -> linear search over the literal chain; alloc::sync::Arc::drop_slow -> no-op
+    #[kani::proof]
+    #[kani::stub(crate::context::HeContext::get_context_data, crate::context::verif_v::get_context_data_stub)]
+    #[kani::stub(alloc::sync::Arc::drop_slow, crate::verif_v::arc_drop_slow_noop)]
+    fn c14_ciphertext_terms_roundtrip() {
+        let ctx = lits::ctx_bfv_n2_2p1();
+        let c: u8 = kani::any();
+        match c { 0 => terms_case(&ctx, &[0]), 1 => terms_case(&ctx, &[1]), _ => terms_case(&ctx, &[0, 1]) }
+        std::mem::forget(ctx);
+    }
+    fn terms_case(ctx: &std::sync::Arc<HeContext>, terms: &[usize]) {
+        let pid = *ctx.first_parms_id();
+        let r: [u8; 8] = kani::any();
+        let mut d = [0u64; 8]; let mut i = 0;
+        while i < 8 { kani::assume((r[i] as u64) < if (i / 2) % 2 == 0 { 97 } else { 113 }); d[i] = r[i] as u64; i += 1; }
+        let ct = mk_ciphertext(2, 2, 2, d.to_vec(), pid, 1.0, false, 1);
+        let mut s = Sink::new();
+        let n = ct.serialize_terms(ctx, terms, &mut s).unwrap();
+        assert!(n == ct.serialized_terms_size(ctx, terms.len()) && s.len == n);
+        let mut rd = Src { buf: s.buf, pos: 0, end: s.len };
+        let back = Ciphertext::deserialize_terms(ctx, terms, &mut rd).unwrap();
+        assert!(rd.pos == n && back.size() == 2 && back.data().len() == 8 && !back.is_ntt_form());
+        let i: usize = kani::any(); kani::assume(i < 8);
+        let selected = i >= 4 || (terms.len() == 2) || (i % 2 == terms[0]);
+        kani::cover!(!selected && d[i] != 0);
+        assert!(back.data()[i] == if selected { d[i] } else { 0 });
+    }
+
+    // @harness id=C15 tier=quick unwind=16 timeout=3000 fs=4096
+    // @desc serializing a ciphertext (compact format) to a writer that accepts 1..8 bytes per call and may FAIL at any call either returns Err or leaves the complete encoding in the sink -- an Ok result is never reported for a sink that did not receive every byte
+    // @bounds BFV N=2, q={97}, size 2 (46-byte encoding); per-call limit symbolic 1..8; failure at any call index (or never); all canonical residues
+    // @funcs <Ciphertext as SerializableWithHeContext>::serialize and every scalar writer below it
+    // @stubs HeContext::get_context_data -> linear search over the literal chain; alloc::sync::Arc::drop_slow -> no-op
+    #[kani::proof]
+    #[kani::stub(crate::context::HeContext::get_context_data, crate::context::verif_v::get_context_data_stub)]
+    #[kani::stub(alloc::sync::Arc::drop_slow, crate::verif_v::arc_drop_slow_noop)]
+    fn c15_ciphertext_faulty_writer() {
+        let ctx = lits::ctx_bfv_n2_1p();
+        let pid = *ctx.first_parms_id();
+        let r: [u8; 4] = kani::any(); kani::assume(r[0] < 97 && r[1] < 97 && r[2] < 97 && r[3] < 97);
+        let ct = mk_ciphertext(2, 1, 2, vec![r[0] as u64, r[1] as u64, r[2] as u64, r[3] as u64], pid, 1.0, false, 1);
+        let mut w = short_writer();
+        let res = ct.serialize(&ctx, &mut w);
+        let full = ct.serialized_size(&ctx);
+        kani::cover!(res.is_err());
+        kani::cover!(res.is_ok() && w.limit < 8);
+        if res.is_ok() {
+            assert!(w.len == full && full == 32 + 8 + 1 + 1 + 4);
+            assert!(w.buf[42] == r[0] && w.buf[45] == r[3]);
+        }
+        std::mem::forget(ctx);
+    }
+
     #[cfg(test)] include!("/verif/.build/playback/serialize_v.rs");
 }
